@@ -4,6 +4,8 @@ import (
 	"bufio"
 	"encoding/binary"
 	"fmt"
+	"github.com/evanoberholster/imagemeta"
+	"github.com/evanoberholster/imagemeta/exif2"
 
 	"github.com/evanoberholster/imagemeta/imagetype"
 	"github.com/evanoberholster/imagemeta/meta"
@@ -25,7 +27,7 @@ const c12Block = 625 // prefixes per case (5^4)
 func (e *C12) ID() string    { return "C12" }
 func (e *C12) Level() string { return "exploration" }
 func (e *C12) Rule() string {
-	return "section A (exhaustive): every prefix over the signature alphabet {I, M, *, 0x00, other} of length 0..7 (quick) / 0..10 (thorough), followed by an II or MM header with a random first-IFD offset (a sixth of them 0, 1, 7, 8, 2^31, 2^32-1 or signature-like values) and >= 28 further bytes, searched through a *bufio.Reader (sizes 32, 33, 64, 4096) and through a plain reader; section B: random prefixes up to 16 KiB built from alphabet runs and random bytes, with the signature placed at every offset 4060..4100 and 8150..8200 (buffer refill boundaries), streams without any signature, and streams whose only signature has fewer than 28 bytes after it. section C (exhaustive): every single-byte variation of II*\\0 and MM\\0* as a near miss in front of a real header and in a stream without one; section D: streams of 64 KiB to 3 MiB that start like a HEIF / JPEG / RW2 / CR3 file or with random bytes, the signature behind them; the image-type argument is varied (it labels the result and must not steer the search). Oracle: a naive search of the same bytes in the harness gives the first signature index; the reported TiffHeaderOffset, byte order and FirstIfdOffset must match it, the bufio.Reader must afterwards stand exactly on the reported signature - and, for a quarter of the streams, still do so after two overlapping searches on an unrelated stream (the second started from inside a Read of the first) - and ErrNoExif is returned exactly when no signature has 28 bytes after it. Non-trivial: the prefix contains a proper partial signature; distinct = distinct (prefix, header) for section A, (offset, buffer size) for B."
+	return "section A (exhaustive): every prefix over the signature alphabet {I, M, *, 0x00, other} of length 0..7 (quick) / 0..10 (thorough), followed by an II or MM header with a random first-IFD offset (a sixth of them 0, 1, 7, 8, 2^31, 2^32-1 or signature-like values) and >= 28 further bytes, searched through a *bufio.Reader (sizes 32, 33, 64, 4096) and through a plain reader; section B: random prefixes up to 16 KiB built from alphabet runs and random bytes, with the signature placed at every offset 4060..4100 and 8150..8200 (buffer refill boundaries), streams without any signature, and streams whose only signature has fewer than 28 bytes after it. every eighth case of section B instead builds a stream that sniffs as Panasonic RW2 or HEIF, 0..4090 filler bytes and a small complete block, and requires Decode, DecodeTiff, DecodeHeif and exif2.Parse - the entry points that locate the block by this search - to report its Make; section C (exhaustive): every single-byte variation of II*\\0 and MM\\0* as a near miss in front of a real header and in a stream without one; section D: streams of 64 KiB to 3 MiB that start like a HEIF / JPEG / RW2 / CR3 file or with random bytes, the signature behind them; the image-type argument is varied (it labels the result and must not steer the search). Oracle: a naive search of the same bytes in the harness gives the first signature index; the reported TiffHeaderOffset, byte order and FirstIfdOffset must match it, the bufio.Reader must afterwards stand exactly on the reported signature - and, for a quarter of the streams, still do so after two overlapping searches on an unrelated stream (the second started from inside a Read of the first) - and ErrNoExif is returned exactly when no signature has 28 bytes after it. Non-trivial: the prefix contains a proper partial signature; distinct = distinct (prefix, header) for section A, (offset, buffer size) for B."
 }
 func (e *C12) Assumptions() []string {
 	return []string{"bufio.Reader arguments have a buffer of at least 32 bytes (the search peeks 32)"}
@@ -265,6 +267,46 @@ func (e *C12) Run(c *core.Ctx, idx int) {
 	}
 	// section B
 	k := idx - nA
+	if k%8 == 5 {
+		// the entry points that locate the block by this search agree with it: a stream that the
+		// sniffer takes for a TIFF-family or HEIF file, some filler, then a small complete block
+		heads := [][]byte{
+			append([]byte("II\x55\x00\x18\x00\x00\x00\x88\xe7\x74\xd8"), make([]byte, 12)...), // Panasonic RW2
+			[]byte("\x00\x00\x00\x18ftypheic\x00\x00\x00\x00mif1heic"),                        // HEIF
+			[]byte("\x00\x00\x00\x18ftypmif1\x00\x00\x00\x00mif1heic"),                        // HEIF, generic major brand
+		}
+		h := heads[(k/8)%len(heads)]
+		fillN := r.Pick(0, 1, 2, 3, 24, 100, 301, 4090)
+		filler := r.Bytes(fillN)
+		gen.ScrubTIFFSig(filler, 0, len(filler))
+		block := []byte("II*\x00\x08\x00\x00\x00\x01\x00\x0f\x01\x02\x00\x06\x00\x00\x00\x1a\x00\x00\x00\x00\x00\x00\x00Canon\x00")
+		if r.Bool() {
+			block = []byte("MM\x00*\x00\x00\x00\x08\x00\x01\x01\x0f\x00\x02\x00\x00\x00\x06\x00\x00\x00\x1a\x00\x00\x00\x00Canon\x00")
+		}
+		stream := append(append(append([]byte(nil), h...), filler...), block...)
+		stream = append(stream, make([]byte, 64)...)
+		what := fmt.Sprintf("head %q + %d filler bytes + block", h[:12], fillN)
+		for _, ep := range []struct {
+			name string
+			run  func() (exif2.Exif, error)
+		}{
+			{"Decode", func() (exif2.Exif, error) { return imagemeta.Decode(mon.NewRS(stream)) }},
+			{"DecodeTiff", func() (exif2.Exif, error) { return imagemeta.DecodeTiff(mon.NewRS(stream)) }},
+			{"DecodeHeif", func() (exif2.Exif, error) { return imagemeta.DecodeHeif(mon.NewRS(stream)) }},
+			{"exif2.Parse", func() (exif2.Exif, error) { return exif2.Parse(mon.NewRS(stream)) }},
+		} {
+			var ex exif2.Exif
+			var err error
+			pk, _, text := core.Guard(func() { ex, err = ep.run() })
+			c.Rec.Eval(1)
+			if pk || err != nil || ex.Make != "Canon" {
+				c.Rec.Violation("tiffscan:entrypoint:"+ep.name, fmt.Sprintf("%s on a stream whose first signature starts a complete block (%s): Make=%q err=%v %s", ep.name, what, ex.Make, err, firstLineOf(text)), map[string]any{"entry": ep.name, "stream": what})
+			}
+		}
+		c12Check(c, stream, what)
+		c.Rec.SigHash(core.HashStr(fmt.Sprintf("E|%d|%d", (k/8)%len(heads), fillN)))
+		return
+	}
 	n := r.Range(0, 16384)
 	var pre []byte
 	switch k % 4 {
